@@ -353,10 +353,33 @@ def run_in_process(argv, stdin_bytes, pipe_rng=None):
     return res
 
 
-def run_subprocess(argv, stdin_bytes):
+def run_subprocess(argv, stdin_bytes, tty=False):
     env = dict(os.environ, PYTHONPATH=os.environ.get("VERIF_REPO", "/repo"), PYTHONDONTWRITEBYTECODE="1", PYTHONIOENCODING="utf-8")
-    p = subprocess.Popen([sys.executable, "-m", "auditok.cmdline"] + list(argv), stdin=subprocess.PIPE, stdout=subprocess.PIPE,
-                         stderr=subprocess.PIPE, env=env)
+    master = None
+    if tty:
+        # standard output is a terminal (what a person at a shell sees): the detections printed are the same
+        import pty
+
+        master, slave = pty.openpty()
+        p = subprocess.Popen([sys.executable, "-m", "auditok.cmdline"] + list(argv), stdin=subprocess.PIPE, stdout=slave, stderr=subprocess.PIPE, env=env)
+        os.close(slave)
+        chunks = []
+
+        def drain():
+            while True:
+                try:
+                    b = os.read(master, 65536)
+                except OSError:
+                    break
+                if not b:
+                    break
+                chunks.append(b)
+
+        th_ = threading.Thread(target=drain, daemon=True)
+        th_.start()
+    else:
+        p = subprocess.Popen([sys.executable, "-m", "auditok.cmdline"] + list(argv), stdin=subprocess.PIPE, stdout=subprocess.PIPE,
+                             stderr=subprocess.PIPE, env=env)
     try:
         if stdin_bytes:
             # a slow producer: chunks that do not line up with analysis windows, short pauses in the middle of windows
@@ -379,6 +402,10 @@ def run_subprocess(argv, stdin_bytes):
             pass
         p.stdin = None
         out, err = p.communicate(timeout=120)
+        if master is not None:
+            th_.join(10)
+            os.close(master)
+            out = b"".join(chunks).replace(b"\r\n", b"\n")
     except subprocess.TimeoutExpired:
         p.kill()
         p.communicate()
@@ -556,7 +583,10 @@ def run_shard(ctx, upto=None):
                 continue
             rec = make_recording(rng)
             argv, kw, meta = build_argv(rng, rec, tmp, 10000 + i)
-            res = run_subprocess(argv, rec["data"] if meta["kind"] == "stdin" else None)
+            on_tty = (i % 2 == 1)
+            res = run_subprocess(argv, rec["data"] if meta["kind"] == "stdin" else None, tty=on_tty)
+            if on_tty:
+                ctx.count("cli_children_with_a_terminal_as_stdout")
             check_cli(ctx, rec, argv, kw, meta, res, "subprocess")
         rng = ctx.rng("cli")
         if ctx.shard == 0:
@@ -604,7 +634,7 @@ def inconclusive(merged, tier):
     c = merged["counters"]
     need = ["cli_runs_in_process", "cli_runs_subprocess", "lines_checked", "times_checked", "quiet_runs", "j_without_O_runs",
             "O_files_checked", "j_files_checked", "o_dirs_checked", "formatter_values", "formatter_bad_directives",
-            "bad_time_format_runs", "input_raw", "input_wav", "input_stdin", "stdin_fed_through_a_real_pipe", "runs_with_unencodable_save_stream_format"]
+            "bad_time_format_runs", "input_raw", "input_wav", "input_stdin", "stdin_fed_through_a_real_pipe", "cli_children_with_a_terminal_as_stdout", "runs_with_unencodable_save_stream_format"]
     out = [f"monitor never observed {k}" for k in need if c.get(k, 0) == 0]
     if c.get("inconclusive_runs", 0) > 2:
         out.append(f"{c['inconclusive_runs']} command-line runs were inconclusive")
